@@ -586,4 +586,8 @@ theorem C06_at_most_once_per_update (env : Env) (fuel : Nat) (s : St) (r : RSt)
     c'.rid ≤ s.ridOf k + 1 :=
   C06_at_most_once_update env fuel s r (fun _ hk => AmVerif.Lemmas.TopoGraph.topo_nodup hk) k c' h
 
+/-- `reloaded_global` reads and clears the global flag in one atomic `swap` (typed and untyped handle): the model's
+`reloadedGlobal` step is atomic, so among concurrent pollers exactly one sees `true` per rewrite. -/
+theorem C06_reloaded_global_is_one_swap : reloadedGlobalIsAtomicSwap = true := by decide
+
 end AmVerif.Props.C06
